@@ -7,66 +7,66 @@ props = [json.loads(l)["id"] for l in open("properties.jsonl")]
 # id: (level, technique, text, note, design_ref)
 C = {
  "C01": ("exploration", "reference-model monitor (M-RESOLVE) over seeded directory populations and histories; watcher quiescence via hook",
-   "Runs the real cache over thousands of generated Spec-directory populations (missing/repeated/non-clean directories, valid/invalid/non-Spec/nested files, colliding definitions) and change histories in manual and auto-refresh mode; after every refresh every query result is compared with an independently written resolution model. Sampled, bounded populations: held on what was generated, not a proof. Histories also reconfigure the same cache with permuted, shortened and repeated directory lists; non-regular entries (FIFO, links to directories) are part of the populations.",
+   "Runs the real cache over thousands of generated Spec-directory populations (missing/repeated/non-clean directories, valid/invalid/non-Spec/nested files, colliding definitions) and change histories in manual and auto-refresh mode; after every refresh every query result is compared with an independently written resolution model. Sampled, bounded populations: held on what was generated, not a proof. Histories also reconfigure the same cache with permuted, shortened and repeated directory lists; non-regular entries (FIFO, links to directories) are part of the populations. The directory itself is renamed away as a history step; the caller reuses the directory slice it passed.",
    "trusted: M-RESOLVE in harness/cmd/vcheck/gen_dirs.go transcribes the statement; kernel inotify ordering for the auto-mode quiescence", "3 C01"),
  "C02": ("exploration", "reference-model monitor: harness-built combined edit list + marker scan over repeated injections into one cache",
-   "Generated caches with shadowing/conflicts and rich edits; ordered selections injected repeatedly into the same cache; result compared with applying the combined list built from the generator's own data, plus attribution markers proving no foreign edit appears. Refused requests (resolvable devices mixed with an unknown one, nil OCI spec) and queries go in between; one population in eight is replayed through a watcher-less auto-refresh cache in a child process.",
+   "Generated caches with shadowing/conflicts and rich edits; ordered selections injected repeatedly into the same cache; result compared with applying the combined list built from the generator's own data, plus attribution markers proving no foreign edit appears. Refused requests (resolvable devices mixed with an unknown one, nil OCI spec) and queries go in between; one population in eight is replayed through a watcher-less auto-refresh cache in a child process. Phases 'late' (the highest-priority directory appears populated since the last query) and 'reorder' (the list of a live auto cache is permuted), each followed by the injection as the next query.",
    "trusted: ContainerEdits.Apply as the composition reference (checked by C03), M-RESOLVE", "3 C02"),
  "C03": ("exploration", "reference-model monitor (M-APPLY), clause by clause, with real host device nodes (mknod)",
-   "Seeded OCI specs x valid edit lists with forced interactions applied through Apply/Device.ApplyEdits/Spec.ApplyEdits; env, device, cgroup, mount, hook, GID, RDT and 'nothing else changes' clauses each compared with an independent model. Optional numbers (cgroup-rule minor, uid/gid, hook timeout) are compared exactly: absent differs from 0.",
+   "Seeded OCI specs x valid edit lists with forced interactions applied through Apply/Device.ApplyEdits/Spec.ApplyEdits; env, device, cgroup, mount, hook, GID, RDT and 'nothing else changes' clauses each compared with an independent model. Optional numbers (cgroup-rule minor, uid/gid, hook timeout) are compared exactly: absent differs from 0. Names of variables, device paths and mount destinations that are prefixes, extensions and case variants of each other; device cgroup rules with absent major/minor already in the OCI spec; host paths that are links, directories, dangling.",
    "trusted: M-APPLY in c03.go; env clause = last entry wins; positions of replaced elements unconstrained", "3 C03"),
  "C04": ("exploration", "reference-model monitor + before/after deep comparison of the OCI spec",
    "Generated caches x request lists mixing resolvable, unknown, invalid, conflict-removed and repeated names; checks the exact miss list, the error, and byte-identical OCI spec; nil spec case. Requests have up to 300 names; a flip phase requests two devices that never exist at the same time while the file flips.",
    "trusted: M-RESOLVE", "3 C04"),
  "C05": ("exploration", "by-construction oracle: well-formed documents vs single-defect variants at every position, 4 entry points, 2 encodings",
-   "Every defect kind of the statement at spec/first/middle/last device and first/last list element, in JSON and YAML, through ReadSpec, ParseSpec, Cache.Refresh+GetErrors and Cache.WriteSpec; well-formed Specs (incl. boundary-valid) must be accepted by all. Near-miss enum values, byte-size annotation limits (multi-byte characters, one byte over, exactly at the limit), case variants of field names (known finding) and history-dependent acceptance are included.",
+   "Every defect kind of the statement at spec/first/middle/last device and first/last list element, in JSON and YAML, through ReadSpec, ParseSpec, Cache.Refresh+GetErrors and Cache.WriteSpec; well-formed Specs (incl. boundary-valid) must be accepted by all. Near-miss enum values, byte-size annotation limits (multi-byte characters, one byte over, exactly at the limit), case variants of field names (known finding) and history-dependent acceptance are included. A second pass with an accepting external Spec validator installed; documents of more than 1 and 4 MiB (thorough: up to 33 MiB) whose single defect sits in the last device; non-ASCII letters and digits inside names.",
    "trusted: the defect catalogue in c05.go follows the rule list of the statement; harness emitters (doc.go) produce what they claim", "3 C05"),
  "C06": ("exploration", "bounded-exhaustive enumeration against M-VERSION",
-   "All 128 feature subsets x all placements x all device permutations (n<=3 quick, <=4 thorough) x 25 declared version strings; ReadSpec on a file sample in both encodings. Every feature comes in several realisations (gid lists of zeros only, other mount types and host paths, name/class spellings, RDT members); one long-lived Spec object is queried with replaced content.",
+   "All 128 feature subsets x all placements x all device permutations (n<=3 quick, <=4 thorough) x 25 declared version strings; ReadSpec on a file sample in both encodings. Every feature comes in several realisations (gid lists of zeros only, other mount types and host paths, name/class spellings, RDT members); one long-lived Spec object is queried with replaced content. A second pass with an accepting external validator installed; every realisation of every placed feature and all ten leading digits at every leaf.",
    "trusted: M-VERSION (gen_spec.go) transcribes the feature table; v-prefixed declared versions are unspecified and only counted", "3 C06"),
  "C07": ("exploration", "bounded-exhaustive enumeration against a hand-written byte-level grammar recogniser",
-   "Every string of length <=5 (quick) / <=6 (thorough) over a 13-symbol alphabet incl. non-ASCII and NUL, every byte at every position of skeleton names, seeded longer names; acceptance, parts, recomposition, failure contract, per-part validators, compose/parse round trip. Every Unicode code point at the first, a middle and the last position of each part (thorough: all nine positions for all code points).",
+   "Every string of length <=5 (quick) / <=6 (thorough) over a 13-symbol alphabet incl. non-ASCII and NUL, every byte at every position of skeleton names, seeded longer names; acceptance, parts, recomposition, failure contract, per-part validators, compose/parse round trip. Every Unicode code point at the first, a middle and the last position of each part (thorough: all nine positions for all code points). Names of up to 70000 bytes.",
    "trusted: model_grammar.go", "3 C07"),
  "C08": ("exploration", "sanitizer-style crash/hang monitor: hostile inputs through every listed entry point with recover(), per-call thread CPU time, and a child process whose watcher goroutine must survive dropped files",
-   "Structure-aware, YAML-feature, byte-level and random hostile file contents through ParseSpec/ReadSpec/Refresh/schema validation, injection of every loadable mutant into generated OCI specs, G-STR strings through the annotation and parser helpers; a child with an auto-refresh cache gets hostile files renamed into its directory and must afterwards still notice a good file. Unknown and hostile device names are requested from the very cache that holds the error entry of the hostile file; a call that never returns is reported as a hang.",
+   "Structure-aware, YAML-feature, byte-level and random hostile file contents through ParseSpec/ReadSpec/Refresh/schema validation, injection of every loadable mutant into generated OCI specs, G-STR strings through the annotation and parser helpers; a child with an auto-refresh cache gets hostile files renamed into its directory and must afterwards still notice a good file. Unknown and hostile device names are requested from the very cache that holds the error entry of the hostile file; a call that never returns is reported as a hang. Hostile keys shaped like qualified names (empty DNS labels); external validators that refuse, accept and are replaced, with a 60 s hang oracle.",
    "trusted: only recoverable panics, process death and CPU time are observable; inputs <= 256 KiB", "3 C08"),
  "C10": ("fault_enumeration", "crash-point enumeration with strace SIGKILL injection at every file-system syscall of the writer, write-failure offsets via RLIMIT_FSIZE, ENOSPC tmpfs, errno injection, raw inotify trace, hook-point reader interleaving",
-   "For {previous file, none} x {json, yaml} x {small, 64 KiB}: the writer child is killed on entry to each syscall of the sequence observed in a dry run; writes fail at every/sampled byte offset, on a full tmpfs, at rename, and with injected errnos; a raw inotify watch and sampling readers observe thousands of concurrent overwrites; a full reader observation runs at each write.* hook point. Oracle: every Spec-named entry is byte-equal to the complete old or new content and nothing left behind is loadable. Spec names contain pattern, format and shell characters; a library reader runs during overwrites with contents of different size.",
+   "For {previous file, none} x {json, yaml} x {small, 64 KiB}: the writer child is killed on entry to each syscall of the sequence observed in a dry run; writes fail at every/sampled byte offset, on a full tmpfs, at rename, and with injected errnos; a raw inotify watch and sampling readers observe thousands of concurrent overwrites; a full reader observation runs at each write.* hook point. Oracle: every Spec-named entry is byte-equal to the complete old or new content and nothing left behind is loadable. Spec names contain pattern, format and shell characters; a library reader runs during overwrites with contents of different size. After every failed write the same cache writes another Spec, compared byte for byte with what a fresh cache writes.",
    "trusted: strace kills before the syscall takes effect; rename(2) atomicity; process death only (no power loss)", "3 C10"),
  "C11": ("exploration", "convergence monitor: seeded file-system histories with adversarial pacing (watcher held, changes made from inside a directory scan), logical quiescence via sentinel + watch.event hook, comparison with a fresh cache",
-   "Histories of 1-12 operations of 16 kinds over 1-3 directories, observed through queries only; after the watcher drained, within two rounds of queries the devices, definitions and files in error must equal those of a freshly built cache. 'Soon' is restated as bounded progress. Changes are also injected from inside the constructor's first scan and between scan and return; back-to-back remove+recreate and truncate operations are among the kinds.",
+   "Histories of 1-12 operations of 16 kinds over 1-3 directories, observed through queries only; after the watcher drained, within two rounds of queries the devices, definitions and files in error must equal those of a freshly built cache. 'Soon' is restated as bounded progress. Changes are also injected from inside the constructor's first scan and between scan and return; back-to-back remove+recreate and truncate operations are among the kinds. Phase 'appears' (a higher-priority directory appears populated; observation by InjectDevices alone), phase 'swap' (the directory is replaced at the moment its watch is set up, hook watch.beforeAdd), Spec-named symbolic links, directories renamed away, non-clean spellings.",
    "trusted: inotify FIFO ordering per instance; the fresh cache as reference (its correctness is C01's job)", "3 C11"),
  "C12": ("exploration", "Go race detector over a stress of all public operations + snapshot histories checked for mixture, monotonicity and linearizability (porcupine)",
-   "Race build: 8-24 goroutines x all public cache operations in manual and auto mode with an external mutator, reports de-duplicated by outermost pkg/cdi frame pair, progress monitor; thousands of short histories with an atomic version switcher checked for no-mixture, per-goroutine monotonicity and linearizability against a 3-line (fs, cache) model. The stress includes a missing and a flickering directory, moments with an empty directory list, and concurrent first use of the default cache in race-built child processes; no progress for 30 s is a deadlock verdict.",
+   "Race build: 8-24 goroutines x all public cache operations in manual and auto mode with an external mutator, reports de-duplicated by outermost pkg/cdi frame pair, progress monitor; thousands of short histories with an atomic version switcher checked for no-mixture, per-goroutine monotonicity and linearizability against a 3-line (fs, cache) model. The stress includes a missing and a flickering directory, moments with an empty directory list, and concurrent first use of the default cache in race-built child processes; no progress for 30 s is a deadlock verdict. Snapshot histories on auto-refresh caches without watcher; the caller reuses the directory slice while the cache is in use.",
    "trusted: the race detector only sees executed races; stamps at the client boundary; porcupine v1.3.0", "3 C12"),
  "C20": ("fault_enumeration", "child-process histories of Configure calls with exact accounting from /proc (descriptors, inotify watches by inode, watcher goroutines), descriptor exhaustion at every step index, held-watcher catalogue case; compared with a fresh cache",
-   "1-40 reconfigurations (private and default cache) with directory changes and descriptor exhaustion (strict / table full) during step k or from step k on, k<=8: final state equals a fresh cache with the final options, watches exactly on the existing final directories (or none in manual mode), later changes converge (or wait for Refresh), resources <= baseline + one watcher. Writes armed to fire during a Configure (between scan and watch set-up), watcher held across a Configure, stale inotify watches detected by inode; histories that met a machine-wide inotify shortage are repeated, never judged.",
+   "1-40 reconfigurations (private and default cache) with directory changes and descriptor exhaustion (strict / table full) during step k or from step k on, k<=8: final state equals a fresh cache with the final options, watches exactly on the existing final directories (or none in manual mode), later changes converge (or wait for Refresh), resources <= baseline + one watcher. Writes armed to fire during a Configure (between scan and watch set-up), watcher held across a Configure, stale inotify watches detected by inode; histories that met a machine-wide inotify shortage are repeated, never judged. Catalogue cases: a cache set up during a shortage on empty and missing directories; a configured path below a regular file.",
    "trusted: /proc/self/fd and fdinfo; one watcher = 4 descriptors + 2 goroutines; nothing asserted during the shortage itself", "3 C20"),
 
  "C09": ("exploration", "round-trip monitor: WriteSpec then ReadSpec / Refresh+GetDevice over G-STR strings in every free-text field and numeric extremes, both encodings",
-   "One free-text field at a time takes hostile valid-UTF-8 strings (YAML-sensitive spellings, line breaks in every position, controls, NEL/LS/PS, BOM, non-characters, non-BMP) and integer fields take their extremes; the files written as x.json, x.yaml and x must read back equal and load to the same devices. The YAML block-scalar mismatch between yaml.v3 and yaml.v2 is a recorded known finding. In-memory shapes with allocated-but-empty lists/maps are judged whenever the writer accepts them; stale temporary files of interrupted writers lie next to the target; comparison distinguishes absent from 0.",
+   "One free-text field at a time takes hostile valid-UTF-8 strings (YAML-sensitive spellings, line breaks in every position, controls, NEL/LS/PS, BOM, non-characters, non-BMP) and integer fields take their extremes; the files written as x.json, x.yaml and x must read back equal and load to the same devices. The YAML block-scalar mismatch between yaml.v3 and yaml.v2 is a recorded known finding. In-memory shapes with allocated-but-empty lists/maps are judged whenever the writer accepts them; stale temporary files of interrupted writers lie next to the target; comparison distinguishes absent from 0. Every catalogue string in every field whatever the seed; Specs whose files exceed 1 and 4 MiB.",
    "trusted: normalised JSON comparison identifies nil and empty containers", "3 C09"),
  "C13": ("fault_enumeration", "fault enumeration over directory positions and files, scan.beforeRead hook for vanish/replace between listing and reading, uid-65534 child for permission faults; compared with M-RESOLVE",
-   "Every fault kind (10 file kinds, 5 directory kinds) at every configured-directory position and at up to 4 Spec files of good populations, alone or in pairs, manual and auto mode, followed by a repair and another refresh: the other devices resolve exactly, failing files are reported, Refresh() errs iff it must, entries disappear after the repair. Repairs happen by rewriting, renaming to a non-Spec name, moving out or removing; overlapping explicit refreshes around a repair are checked against the last-started scan.",
+   "Every fault kind (10 file kinds, 5 directory kinds) at every configured-directory position and at up to 4 Spec files of good populations, alone or in pairs, manual and auto mode, followed by a repair and another refresh: the other devices resolve exactly, failing files are reported, Refresh() errs iff it must, entries disappear after the repair. Repairs happen by rewriting, renaming to a non-Spec name, moving out or removing; overlapping explicit refreshes around a repair are checked against the last-started scan. Directory faults that are not ENOENT also in auto-refresh mode.",
    "trusted: M-RESOLVE; a directory that cannot be scanned contributes nothing; unconstrained cases listed in DESIGN.md", "3 C13"),
  "C16": ("exploration", "trace monitor over directory-tree snapshots (path, type, mode, size, SHA-256) before/after WriteSpec and RemoveSpec, manual and auto-refresh caches",
-   "Names from all four generators with hostile transient ids must be single path components; the snapshot diff after WriteSpec is exactly the expected file (+ created directories) in the last configured directory, encoding by extension, devices resolve to it with top priority after a refresh, RemoveSpec removes exactly that file and is idempotent. Names with extensions in other letter case, the last directory also listed earlier under other spellings, RemoveSpec while the last directory is missing.",
+   "Names from all four generators with hostile transient ids must be single path components; the snapshot diff after WriteSpec is exactly the expected file (+ created directories) in the last configured directory, encoding by extension, devices resolve to it with top priority after a refresh, RemoveSpec removes exactly that file and is idempotent. Names with extensions in other letter case, the last directory also listed earlier under other spellings, RemoveSpec while the last directory is missing. The file after WriteSpec is byte-equal to what a cache of its own writes; leftovers that begin with the new content; the cache is reconfigured before the write; names of 236-255 bytes.",
    "trusted: SHA-256 snapshots of the sandbox tree; ids without NUL", "3 C16"),
  "C17": ("exploration", "reference-model monitor: harness-written draft-07 evaluator over the shipped schema files vs every entry point x encoding x schema configuration",
-   "Valid Specs and 1-3 structural mutations (removed members, wrong types, bound-adjacent numbers, extra members, nulls, ill-formed annotation keys, unusual JSON spellings) through ValidateData/ValidateFile/ValidateReader/ReadAndValidate/ValidateType/Validate with builtin, external copy, none and nil schemas; verdict equality with the model, encoding independence, none/nil never reject, no-op canary. Large per-object annotation sets with keys of their own, in-memory Spec shapes, concurrent first use in child processes; the thorough tier cross-checks the model against python-jsonschema.",
+   "Valid Specs and 1-3 structural mutations (removed members, wrong types, bound-adjacent numbers, extra members, nulls, ill-formed annotation keys, unusual JSON spellings) through ValidateData/ValidateFile/ValidateReader/ReadAndValidate/ValidateType/Validate with builtin, external copy, none and nil schemas; verdict equality with the model, encoding independence, none/nil never reject, no-op canary. Large per-object annotation sets with keys of their own, in-memory Spec shapes, concurrent first use in child processes; the thorough tier cross-checks the model against python-jsonschema. Readers that deliver one byte per call, half, or the last bytes together with io.EOF.",
    "trusted: model_schema.go implements draft-07; harness emitters; YAML numbers canonical", "3 C17"),
  "C18": ("exploration", "implication monitor: library-valid Specs (decided by the library) must pass the builtin schema as object and as written files; global validator in child processes",
-   "G-SPEC Specs, boundary-valid Specs, numeric extremes (timeouts 0..2^32-1), G-STR strings and annotation keys of every shape; Validate(spec), ValidateFile/ValidateData of the written .json/.yaml, and WriteSpec+ReadSpec with SetSpecValidator(BuiltinSchema()) installed in dedicated children. Annotation sets near the limit at spec and device level with distinct keys, documents whose written files exceed 1 MiB, concurrent validations.",
+   "G-SPEC Specs, boundary-valid Specs, numeric extremes (timeouts 0..2^32-1), G-STR strings and annotation keys of every shape; Validate(spec), ValidateFile/ValidateData of the written .json/.yaml, and WriteSpec+ReadSpec with SetSpecValidator(BuiltinSchema()) installed in dedicated children. Annotation sets near the limit at spec and device level with distinct keys, documents whose written files exceed 1 MiB, concurrent validations. Hand-written Spec files (unquoted scalars, explicit nulls) loaded with the validator installed; nil list entries in in-memory Specs; 16 concurrent validations.",
    "trusted: the library's own acceptance defines the antecedent", "3 C18"),
  "C19": ("exploration", "differential monitor: the built cdi and validate binaries as child processes vs an in-process cache with the same options and validator; outputs parsed, not string-compared",
-   "Seeded populations (with/without files in error, missing directories) via --spec-dirs/-d in three flag forms; devices/vendors/classes/specs/dirs/validate/inject subcommands and formats; validate binary on mutated documents with builtin/none/external schema via file and stdin; listings, error-report file sets, exit statuses and injected OCI trees compared. Directory lists with repetitions and non-clean spellings; tool runs that got no inotify instance from the machine are repeated, never judged.",
+   "Seeded populations (with/without files in error, missing directories) via --spec-dirs/-d in three flag forms; devices/vendors/classes/specs/dirs/validate/inject subcommands and formats; validate binary on mutated documents with builtin/none/external schema via file and stdin; listings, error-report file sets, exit statuses and injected OCI trees compared. Directory lists with repetitions and non-clean spellings; tool runs that got no inotify instance from the machine are repeated, never judged. A Spec only the schema refuses in the population; a directory listed around another one; several documents per validate invocation.",
    "trusted: regexp extraction of names/paths from the tool's output; inject reference uses sorted matches", "3 C19"),
 
  "C14": ("exploration", "invariant monitor: before/after JSON images of the cache through the query API across injection sequences with host-node changes",
-   "Sequences of InjectDevices/Device.ApplyEdits/Spec.ApplyEdits, each run twice, with mknod-replaced host nodes in between; cache image unchanged, results repeatable and equal to pristine edits applied now, cached Specs still writable and byte-identical. Expectations come from the harness's own lstat model of the host nodes; comparison distinguishes absent from 0.",
+   "Sequences of InjectDevices/Device.ApplyEdits/Spec.ApplyEdits, each run twice, with mknod-replaced host nodes in between; cache image unchanged, results repeatable and equal to pristine edits applied now, cached Specs still writable and byte-identical. Expectations come from the harness's own lstat model of the host nodes; comparison distinguishes absent from 0. A Spec file appears behind a manual cache and a request is refused: still no refresh; file modes with type bits; mount paths not in their shortest spelling.",
    "trusted: the image covers what the query API exposes; Apply on pristine generator data as reference", "3 C14"),
  "C15": ("exploration", "reference-model monitor (Kubernetes qualified-name recogniser) over seeded plugin/id/map/device tuples",
-   "Key names of every length 1..66 with every character class at first/middle/last position, initial maps incl. colliding keys with empty value, device lists with one bad element at each position; failure leaves the map intact, success adds exactly one legal key that parses back. Every Unicode code point at the first, a middle and the last position of plugin name and device id.",
+   "Key names of every length 1..66 with every character class at first/middle/last position, initial maps incl. colliding keys with empty value, device lists with one bad element at each position; failure leaves the map intact, success adds exactly one legal key that parses back. Every Unicode code point at the first, a middle and the last position of plugin name and device id. CDI keys with further slashes, the bare prefix and near misses of the prefix.",
    "trusted: model_grammar.go; empty device lists are outside the quantifier", "3 C15"),
 }
 
